@@ -13,9 +13,10 @@ struct ExpLeak { size_t size; Str file; size_t line; Str type; };
 struct ModelState {
     MSlot slots[N_SLOTS]; int seq;
     Vec<int> pluginCalls;
-    ModelState() : seq(0) { for (int i = 0; i < N_SLOTS; i++) slots[i].live = false; }
+    Vec<int> chain; bool chainInit;      // scripted plugins currently installed, head (installed last) first
+    ModelState() : seq(0), chainInit(false) { for (int i = 0; i < N_SLOTS; i++) slots[i].live = false; }
 };
-struct ExpTest { Vec<ExpOp> ops; Vec<ExpFail> fails; size_t checks; bool leakFailure; Vec<ExpLeak> leaks;
+struct ExpTest { Vec<ExpOp> ops; Vec<ExpFail> fails; size_t checks; bool leakFailure; Vec<ExpLeak> leaks; bool chainChanged;
                  int childEnd /* 0 normal, 1 killed by signal, 2 _exit */, childValue, childStops; };
 
 static Str formattedName(const Group& T) { return Str("TEST(") + T.sarg(0) + ", " + T.sarg(1) + ")"; }
@@ -31,7 +32,7 @@ static void collectFilters(const Desc& d, Vec<MFilter>& gf, Vec<MFilter>& nf) {
         int form = (int)G.arg(3);
         MFilter a; a.strict = G.arg(1) != 0; a.invert = G.arg(2) != 0; a.pattern = G.sarg(0);
         if (form == 0) { (G.arg(0) ? nf : gf).push_back(a); }
-        else { MFilter b = a; b.pattern = G.sarg(1); if (form == 2) { a.strict = b.strict = true; a.invert = b.invert = false; } gf.push_back(a); nf.push_back(b); }
+        else { MFilter b = a; b.pattern = G.sarg(1); if (form >= 2) { a.strict = b.strict = true; a.invert = b.invert = false; } gf.push_back(a); nf.push_back(b); }
     }
 }
 static bool selectedBy(const Vec<MFilter>& fs, const char* target) {
@@ -45,13 +46,24 @@ static const char* familyType(int fam) { return (fam == 0 || fam == 3) ? "new" :
 // what one execution of test t must look like, given the model state (slots shared across tests, plugin call counters)
 static void modelTest(const Desc& d, const Vec<int>& testGroups, const Vec<int>& pluginGroups, int t, ModelState& ms, ExpTest& x) {
     const Group& T = d.groups[(size_t)testGroups[(size_t)t]];
-    x = ExpTest(); x.checks = 0; x.leakFailure = false; x.childEnd = 0; x.childValue = 0; x.childStops = 0;
+    x = ExpTest(); x.checks = 0; x.leakFailure = false; x.chainChanged = false; x.childEnd = 0; x.childValue = 0; x.childStops = 0;
     int mySeq = ++ms.seq;
-    // plugin pre actions: installation-reversed order
-    for (size_t p = pluginGroups.size(); p-- > 0;) {
+    // plugin pre actions: installation-reversed order (the chain, head first)
+    if (!ms.chainInit) { ms.chainInit = true; for (size_t p = pluginGroups.size(); p-- > 0;) { const Group& P = d.groups[(size_t)pluginGroups[p]]; if (!P.arg(1) && !P.arg(2)) ms.chain.push_back((int)p); } }
+    Vec<int> chainAtStart = ms.chain;
+    for (size_t ci = 0; ci < chainAtStart.size(); ci++) {
+        size_t p = (size_t)chainAtStart[ci];
         const Group& P = d.groups[(size_t)pluginGroups[p]];
-        if (!P.arg(0, 1) || P.arg(1)) continue;
-        for (size_t i = 0; i < P.ops.size(); i++) if (P.ops[i].phase == PH_PRE && P.ops[i].kind != K_PLUGIN_ERROR) { ExpOp e = { PH_PRE, (int)i, (int)p }; x.ops.push_back(e); }
+        if (!P.arg(0, 1)) continue;
+        for (size_t i = 0; i < P.ops.size(); i++) if (P.ops[i].phase == PH_PRE) {
+            const Op& o = P.ops[i];
+            if (o.kind == K_PLUGIN_ERROR) {          // a plugin may also report an error before the test starts; the test still runs
+                if (o.a > 1 && (ms.pluginCalls[p] % (int)o.a) != 0) continue;
+                ExpFail f; f.token = o.s2; f.file = "plugin.cpp"; f.line = (size_t)o.d; f.testName = formattedName(T); f.anyLocation = false; f.kind = 2;
+                x.fails.push_back(f);
+            }
+            ExpOp e = { PH_PRE, (int)i, (int)p }; x.ops.push_back(e);
+        }
     }
     int ptrSets = 0; size_t expectLeaks = 0; bool ignoreLeaks = false;
     bool setupDone = true;
@@ -89,6 +101,8 @@ static void modelTest(const Desc& d, const Vec<int>& testGroups, const Vec<int>&
             }
             case K_EXPECT_LEAKS: expectLeaks = (size_t)o.a; break;
             case K_IGNORE_LEAKS: ignoreLeaks = true; break;
+            case K_PLUGIN_INSTALL: { int p = (int)o.a; if (p >= 0 && (size_t)p < pluginGroups.size() && std::find(ms.chain.begin(), ms.chain.end(), p) == ms.chain.end()) { ms.chain.insert(ms.chain.begin(), p); x.chainChanged = true; } break; }
+            case K_PLUGIN_REMOVE: { int p = (int)o.a; Vec<int>::iterator it = std::find(ms.chain.begin(), ms.chain.end(), p); if (it != ms.chain.end()) { ms.chain.erase(it); x.chainChanged = true; } break; }
             case K_DIE_SIGNAL:
                 if (o.a == 17 || o.a == 18 || o.a == 23 || o.a == 28) break;      // default action of CHLD, CONT, URG, WINCH: ignore
                 x.childEnd = 1; x.childValue = (int)o.a; return;
@@ -108,10 +122,11 @@ static void modelTest(const Desc& d, const Vec<int>& testGroups, const Vec<int>&
             if (term) { if (ph == PH_SETUP) setupDone = false; break; }
         }
     }
-    // plugin post actions: installation order
-    for (size_t p = 0; p < pluginGroups.size(); p++) {
+    // plugin post actions: the exact reverse of the pre order
+    for (size_t ci = chainAtStart.size(); ci-- > 0;) {
+        size_t p = (size_t)chainAtStart[ci];
         const Group& P = d.groups[(size_t)pluginGroups[p]];
-        if (!P.arg(0, 1) || P.arg(1)) continue;
+        if (!P.arg(0, 1)) continue;
         for (size_t i = 0; i < P.ops.size(); i++) {
             const Op& o = P.ops[i]; if (o.phase != PH_POST) continue;
             if (o.kind == K_PLUGIN_ERROR) {
@@ -401,7 +416,8 @@ void checkOracles(const Desc& d, const Obs& o, RunResult& r) {
                 for (size_t i = 0; i < x.ops.size(); i++) (x.ops[i].plugin < 0 ? xT : xP).push_back(x.ops[i]);
                 bool testPartSame = sT.size() == xT.size(); for (size_t i = 0; testPartSame && i < sT.size(); i++) if (sT[i].phase != xT[i].phase || sT[i].op != xT[i].op) testPartSame = false;
                 (void)pluginOnly;
-                if (testPartSame) { what = "plugin actions"; r.fail("C17", "plugin_order", sigOf("what", what), sfmt("rep %zu test %d: plugin action sequence differs from the model (%zu seen, %zu expected)", rp, st.test, sP.size(), xP.size())); }
+                if (testPartSame && x.chainChanged) { probe("plugin_chain_changed_by_this_test"); }      // which actions the changing test itself still sees is not specified: only later tests are compared
+                else if (testPartSame) { what = "plugin actions"; r.fail("C17", "plugin_order", sigOf("what", what), sfmt("rep %zu test %d: plugin action sequence differs from the model (%zu seen, %zu expected)", rp, st.test, sP.size(), xP.size())); }
                 else {
                     if (sT.size() > xT.size()) what = "statement executed that the model forbids"; else what = "statement missing";
                     r.fail("C01", "trace", sigOf("what", what), sfmt("rep %zu test %d (%s): %zu ops seen, %zu expected, first difference at %zu", rp, st.test, formattedName(T).c_str(), seen.size(), x.ops.size(), firstDiff));
